@@ -60,6 +60,7 @@ type Contract struct {
 	// ghost results: name, sort kind, defining expression (evaluated at each return site)
 	GhostRet []GhostRet
 	Reveal   []string // opaque predicates unfolded in every obligation of this function
+	Updates  []string // ghost variables the function may change
 }
 
 type GhostRet struct {
@@ -72,11 +73,13 @@ type GhostRet struct {
 type ContractSet struct {
 	ByKey map[string]*Contract // pkgpath + "." + key
 	Specs map[string]*SpecFunc // spec functions (global namespace)
+	GhostVars map[string]string // global ghost variables: name -> kind
+	GhostOrder []string
 	Files []string
 }
 
 func newContractSet() *ContractSet {
-	return &ContractSet{ByKey: map[string]*Contract{}, Specs: map[string]*SpecFunc{}}
+	return &ContractSet{ByKey: map[string]*Contract{}, Specs: map[string]*SpecFunc{}, GhostVars: map[string]string{}}
 }
 
 // ---- rewriting of ==> and <==> into implies()/iff() calls ----
@@ -279,6 +282,15 @@ func (cs *ContractSet) loadContractFile(path, pkgPath string) error {
 				return fail(fmt.Errorf("duplicate contract"))
 			}
 			cs.ByKey[pkgPath+"."+key] = cur
+		case strings.HasPrefix(t, "ghostvar "):
+			f := strings.SplitN(strings.TrimSpace(t[9:]), " ", 2)
+			if len(f) != 2 {
+				return fail(fmt.Errorf("ghostvar name kind"))
+			}
+			if _, dup := cs.GhostVars[f[0]]; !dup {
+				cs.GhostVars[f[0]] = strings.TrimSpace(f[1])
+				cs.GhostOrder = append(cs.GhostOrder, f[0])
+			}
 		case strings.HasPrefix(t, "spec "), strings.HasPrefix(t, "pred "):
 			// spec name(p kind, ...) ret = body        (macro)
 			// pred name(p kind, ...) = body             (opaque predicate with definitional axiom)
@@ -338,6 +350,10 @@ func (cs *ContractSet) loadContractFile(path, pkgPath string) error {
 					return fail(err)
 				}
 				cur.GhostRet = append(cur.GhostRet, GhostRet{Name: f[0], Kind: f[1], Expr: e, Text: rest[eq+1:]})
+			case strings.HasPrefix(t, "updates "):
+				for _, n := range strings.Split(t[8:], ",") {
+					cur.Updates = append(cur.Updates, strings.TrimSpace(n))
+				}
 			case strings.HasPrefix(t, "reveal "):
 				cur.Reveal = append(cur.Reveal, strings.Fields(t[7:])...)
 			case t == "trusted":
